@@ -66,6 +66,10 @@ ACT_NOTES = COMMON + [
     'GraphBlocks produced by the real Projector, so the laws read structure; the emitted text, Urls and the re-parse between two actions are outside',
     'native replay goes through the real providers and the real text layer (markdown re-parsed and projected)']
 
+KANI_C13 = {'kani': ['k13_'], 'cap_s': {'quick': 400, 'thorough': 1200}}
+KANI_C07 = {'kani': ['k07_'], 'cap_s': {'quick': 400, 'thorough': 1200}}
+KANI_C06 = {'kani': ['k06_'], 'cap_s': {'quick': 400, 'thorough': 1200}}
+
 PROPS = {
     'C08': {'specs': [SERVER_SPEC], 'notes': COMMON + [
         'claimed at tree level through the real handle_rename: the workspace edit is read as (deleted uris, created uris, per-uri GraphBlocks) with NodeIter::to_markdown '
@@ -74,7 +78,7 @@ PROPS = {
     'C09': {'specs': [ACTIONS_SPEC], 'notes': ACT_NOTES},
     'C10': {'specs': [ACTIONS_SPEC, ACTIONS_LISTS_SPEC], 'notes': ACT_NOTES},
     'C12': {'specs': [SERVER_SPEC, ACTIONS_SPEC, ACTIONS_LISTS_SPEC, dict(LIB_SPEC, crates=('liwe', 'iwes'))], 'notes': ACT_NOTES + ['claimed at the handler -> liwe boundary for code actions: action() for every provider x every node of a note never panics, and every offered action resolves (changes() is Some and does not panic); serde, Urls, the router and the other request kinds are outside']},
-    'C06': {'specs': [TITLES_SPEC, LIB_SPEC], 'notes': COMMON + [
+    'C06': {'specs': [TITLES_SPEC, LIB_SPEC, KANI_C06], 'notes': COMMON + [
         'decision kernel only: link kind x position x url form x (linking directory, target directory) x target has heading; output read from the projected GraphBlocks; '
         'the final "[text](url)" string and the refs_extension concatenation are outside',
         'relative-path join / relative / parent are native models validated against the real crate by the translator validation']},
@@ -93,13 +97,13 @@ PROPS = {
     'C05': {'specs': [LIB_SPEC, TITLES_SPEC], 'notes': COMMON + [
         'oracle: independent scan of the input Documents with the statement\'s resolution rule (relative to the linking note\'s directory, .md ignored, '
         'external URLs excluded); notes in the library root only (sub-directory resolution is string/path code, see not-claimed C15)']},
-    'C13': {'specs': [KERNEL_SPEC, LINESTARTS_SPEC, POS_SPEC, POSB_SPEC, SERVER_SPEC, dict(LIB_SPEC, crates=('liwe', 'iwes'))], 'notes': COMMON + [
+    'C13': {'specs': [KERNEL_SPEC, LINESTARTS_SPEC, POS_SPEC, POSB_SPEC, SERVER_SPEC, dict(LIB_SPEC, crates=('liwe', 'iwes')), KANI_C13], 'notes': COMMON + [
         'claimed for the conversion kernels: to_line_range / to_inline_range over every sorted line table (symbolic 64-bit entries) and byte range; '
         'line_starts over strings given by their line structure (symbolic line lengths, LF / CRLF / missing final newline), std str::lines / '
         'split_inclusive / split / len modelled on that structure',
         'which byte ranges pulldown-cmark reports for a block (e.g. a last line without newline) and UTF-16 vs byte columns are outside the claim']},
     'C01': {'specs': DOC_ALL + [LIB_META_SPEC, EVENTS_SPEC, TITLES_SPEC], 'notes': COMMON + ['claimed at block level: every block/token of the input appears once, in order, in the same container, same kind']},
     'C03': {'specs': DOC_ALL + [POSB_SPEC, EVENTS_SPEC], 'notes': COMMON + ['claimed for blocks -> graph -> tree -> projection: every compiler-emitted panic edge / unwrap / expect / explicit panic reachable within the bounds is a violation']},
-    'C07': {'specs': DOC_ALL, 'notes': COMMON + ['heading levels are symbolic u8 in 1..6; laws: order kept, emitted outline well nested, well-nested input keeps its levels, blocks stay under the nearest preceding heading']},
+    'C07': {'specs': DOC_ALL + [KANI_C07], 'notes': COMMON + ['heading levels are symbolic u8 in 1..6; laws: order kept, emitted outline well nested, well-nested input keeps its levels, blocks stay under the nearest preceding heading']},
     'C20': {'specs': DOC_ALL + [LIB_SPEC], 'notes': COMMON + ['representation invariant checked on every arena produced within the bounds (establish step) and after every update_key step of the library harness (preserve step: RI, ids never reused, other notes untouched)']},
 }
